@@ -17,8 +17,10 @@ import (
 	"fmt"
 	"net/http"
 	"os"
+	"runtime"
 	"sort"
 	"strings"
+	"sync"
 	"sync/atomic"
 	"testing"
 	"testing/synctest"
@@ -57,6 +59,10 @@ func runCase(c Case) (res simResult) {
 	if err != nil {
 		return simResult{Viol: "harness: start: " + err.Error(), Facet: "harness"}
 	}
+	// every stage worker subscribes to the pause manager when it starts running: let them all get there before the
+	// first seed (and thus the first possible pause) - a subscriber arriving after a pause is not a situation the
+	// statement covers (every real subscriber subscribes once at start-up, before any controller can act)
+	synctest.Wait()
 	t0 := time.Now()
 	stopped := false
 	say := func(f string, a ...any) {
@@ -111,6 +117,10 @@ func runCase(c Case) (res simResult) {
 	}()
 	fail := func(facet, f string, a ...any) simResult {
 		res.Viol, res.Facet = fmt.Sprintf(f, a...), facet
+		if os.Getenv("VERIF_DUMP") != "" {
+			buf := make([]byte, 1<<20)
+			fmt.Fprintf(os.Stderr, "%s\n%s\n", res.Viol, buf[:runtime.Stack(buf, true)])
+		}
 		res.Fetches = p.Net.Log()
 		return res
 	}
@@ -135,7 +145,14 @@ func runCase(c Case) (res simResult) {
 	hookTrig := make(chan Ctl, 8)
 	if len(hookCtl) > 0 {
 		// the pause is issued from inside the pipeline, by the goroutine that reaches the event point
-		verifhook.SetHandler(func(point string, n int64, _ string) {
+		// hit numbers are counted per lifecycle (verifhook's own counters are per process)
+		var hitMu sync.Mutex
+		hits := map[string]int64{}
+		verifhook.SetHandler(func(point string, _ int64, _ string) {
+			hitMu.Lock()
+			hits[point]++
+			n := hits[point]
+			hitMu.Unlock()
 			for _, ct := range hookCtl {
 				if ct.Point == point && int64(ct.At) == n {
 					pause.Pause("verif")
@@ -668,7 +685,8 @@ func genCase(t *rapid.T) (Case, map[string]bool) {
 		a := rapid.IntRange(1, 6).Draw(t, "at")
 		c.Ctl = []Ctl{{At: a, Kind: "pause-resume"}, {At: a + rapid.IntRange(1, 6).Draw(t, "at2"), Kind: "pause-resume"}}
 	case 3:
-		pts := []string{"preprocessor.forward", "archiver.forward", "archiver.forward", "postprocessor.forward", "finisher.feedback", "finisher.beforeMarkFinished", "archiver.beforeDo"}
+		pts := []string{"preprocessor.received", "preprocessor.forward", "archiver.received", "archiver.beforeDo", "archiver.forward", "postprocessor.received",
+			"postprocessor.outlinks", "postprocessor.outlinks", "postprocessor.forward", "finisher.received", "finisher.feedback", "finisher.beforeMarkFinished"}
 		c.Ctl = []Ctl{{At: rapid.IntRange(1, 6).Draw(t, "hookn"), Point: pts[rapid.IntRange(0, len(pts)-1).Draw(t, "point")],
 			Kind: []string{"hookpause-resume", "hookpause-stop", "hookpause-stop"}[rapid.IntRange(0, 2).Draw(t, "hookkind")]}}
 	}
@@ -702,4 +720,26 @@ func TestVerifKF_Sim_StopWhilePaused(t *testing.T) {
 		"http://s1.example.com/a2.png": {Kind: "bin"},
 	}, Seeds: []SeedPlan{{ID: "seed-1", URL: "http://s1.example.com/p1", Host: "s1.example.com"}}, Ctl: []Ctl{{At: 1, Kind: "pause-stop"}}}
 	propSim(t, t, c, nil)
+}
+
+// Directed case: pause issued from inside the pipeline just before a page with many outlinks reaches the postprocessor,
+// then stop (the finisher's input buffer is smaller than the number of outlinks).
+func TestVerif_Sim_Directed(t *testing.T) {
+	defer veriflib.Flush()
+	if veriflib.Replaying() {
+		t.Skip()
+	}
+	for workers := 1; workers <= 2; workers++ {
+		for rep := 0; rep < 6; rep++ {
+			site := Site{"http://s1.example.com/p1": {Kind: "html", Assets: []string{"http://s1.example.com/a1.png", "http://s1.example.com/a2.png"},
+				Links: []string{"http://s1.example.com/l1", "http://s1.example.com/l2", "http://s1.example.com/l3"}, HdrLinks: []string{"http://s1.example.com/hl1"}},
+				"http://s1.example.com/a1.png": {Kind: "bin"}, "http://s1.example.com/a2.png": {Kind: "bin"}}
+			for _, kind := range []string{"hookpause-stop", "hookpause-resume"} {
+				c := Case{Settings: Settings{Workers: workers, MaxAssets: 2, MaxRedirect: 2, MaxRetry: 0, MaxHops: 1, Seencheck: true, ExcludeHosts: []string{ExcludedHost}},
+					Site: site, Seeds: []SeedPlan{{ID: "seed-1", URL: "http://s1.example.com/p1", Host: "s1.example.com"}},
+					Ctl: []Ctl{{At: 1, Kind: kind, Point: []string{"postprocessor.outlinks", "postprocessor.received", "archiver.received", "finisher.received", "preprocessor.received"}[rep%5]}}}
+				propSim(t, t, c, map[string]bool{"directed": true})
+			}
+		}
+	}
 }
